@@ -60,7 +60,10 @@ def build_program(call):
             steps += st
             args.append(inst)
         elif k == "ref":
-            if a["t"] == "account":
+            if a.get("same") is not None:
+                # the SAME Python expression object as an earlier reference argument (what `x = Txn.assets[0]; f(x, y, x)` gives)
+                args.append(args[a["same"]])
+            elif a["t"] == "account":
                 args.append(outer_arg(j))
             else:
                 args.append(pt.Btoi(outer_arg(j)))
@@ -123,6 +126,8 @@ def input_model(call):
             bs = [z3.BitVec("%s#%d" % (name, i), 8) for i in range(n)]
             presets[j] = bs
             refs[j] = bs if a["t"] == "account" else z3.Concat(*bs)
+            if a.get("same") is not None:
+                refs[j] = refs[a["same"]]
         elif k == "txn":
             bs = [z3.BitVec("%s#%d" % (name, i), 8) for i in range(8)]
             presets[j] = bs
